@@ -240,6 +240,23 @@ PROPS = {
              "are observed, not proved. The corridor (C14) is covered there.",
         technique="Lean 4 theorems over executable models + metamorphic differential checks on the Go code",
     ),
+    "C17": dict(
+        modules=["SpatialId.Props.C17"],
+        families=[("bitalt", 30000, 200000), ("f64", 10000, 100000)],
+        trusted_base=COMMON_TB + F64_TB,
+        assumptions=["|vIndex| + 1 < 2^53 and vertical zoom within 0..35 (the index to altitude conversion is then exact)"],
+        claim="Theorems (Props/C17.lean) about the bit-exact binary64 model: calcBitIndex always returns a value in 0..2^zoom-1 "
+              "(clamping, for any arithmetic) and is monotone in the altitude (the binary64 comparison is proved to be the "
+              "order of the rational values); the IDs produced for a voxel are exactly the contiguous run from the cell "
+              "of its bottom altitude to the cell of its top altitude, inside the range (v2b_spec); the reverse direction is "
+              "a contiguous run between the cell's bottom and top altitude (b2v_spec); max < min is an error in both "
+              "exported conversions; equal heights select the index form. Over exact rationals the same loop returns "
+              "clamp(floor((alt-lo)*2^z/(hi-lo)), 0, 2^z-1) for hi > lo (calcQ_spec). The model equals the Go code bit "
+              "for bit (hooks calcBitIndex, convertVerticallIDToBit, convertBitToVerticalID and both exported functions).",
+        note="the exact-arithmetic specification (calcQ_spec) is proved for the rational instance of the loop; the binary64 "
+             "instance may differ from it only when the altitude is within rounding of a cell border (not quantified).",
+        technique="Lean 4 theorems over a bit-exact software-binary64 model + differential correspondence with the Go code",
+    ),
     "C19": dict(
         modules=["SpatialId.Props.C19"],
         families=[("chgExt,mrgExt,nN,ovEA,ovSA,tiles,qv,points,geom,shift,notation,altkey,sets,chgSp,mrgSp,nbr", 150, 1200, "conc")],
